@@ -22,7 +22,7 @@ from ..model import AnalysisError
 from ..x_syncnorm import normalized
 
 NORM_MODULES = ("tornado/locks.py", "tornado/queues.py", "tornado/gen.py", "tornado/concurrent.py", "tornado/ioloop.py", "tornado/platform/asyncio.py")
-from ..x_sync import resolve_callable_name, with_nullness, check_outcome_reads, check_none_tests, own_walk, guard_models, aug_delta, node_counts, method_call_on, container_uses, exit_states, reaches, lambda_or_func_body_calls, own_find, own_settle_sites
+from ..x_sync import allowed_closure, resolve_callable_name, with_nullness, check_outcome_reads, check_none_tests, own_walk, guard_models, aug_delta, node_counts, method_call_on, container_uses, exit_states, reaches, lambda_or_func_body_calls, own_find, own_settle_sites
 
 TECHNIQUE = "typestate over the CFG (permit accounting), exhaustive guard folding, settle-discipline and who-may-touch lint"
 EXPLANATION = (
@@ -495,12 +495,14 @@ def check_who_releases(ck):
                 while top.parent is not None:
                     top = top.parent
                 n += 1
-                ck.ob("C33.who-releases", fi, x, top.qualname in RELEASE_CALLERS and fi is top,
+                rel_ok = allowed_closure(ck._orig_repo, L, RELEASE_CALLERS)
+                ck.ob("C33.who-releases", fi, x, (top.qualname in RELEASE_CALLERS and fi is top) or (top.qualname in rel_ok and top.qualname not in RELEASE_CALLERS),
                       "release is referenced only by the holder-side exits (%s); the semaphore's own waiting/timeout/cancellation machinery never gives a permit back" % ", ".join(sorted(RELEASE_CALLERS)))
     ck.floor("C33.who-releases", n, 4, "references to release in locks.py")
 
 
 def run(ck):
+    ck._orig_repo = getattr(ck, "_orig_repo", None) or ck.repo
     ck.repo = normalized(ck.repo, NORM_MODULES)  # alias / named-boolean / temporary / setter-helper normalisation (vt/x_syncnorm.py)
     ck.rule("C33.acquire-ts", "Semaphore.acquire: every normal path either takes one permit and grants the fresh future, or leaves _value alone and queues that future; the same future is returned")
     ck.rule("C33.release-ts", "Semaphore.release: every normal path either hands the permit to exactly one popped live waiter (net 0) or adds one permit after finding the queue empty; a popped waiter is dropped only if done()")
@@ -527,9 +529,14 @@ def run(ck):
     if waiter is not None:
         check_timeout_cb(ck, acq, waiter, tmo, tparam)
     # nobody else hands out permits or changes the count
+    # helpers all of whose callers may write/grant may do so too (their effect is analysed inlined at the call sites)
+    may_write = allowed_closure(ck._orig_repo, L, ("Semaphore.acquire", "Semaphore.release", "Semaphore.__init__"))
     for cls in SEM_FAMILY:
         for fi in ck.repo.methods(L, cls):
-            if fi.qualname in ("Semaphore.acquire", "Semaphore.release", "Semaphore.__init__"):
+            top = fi
+            while top.parent is not None:
+                top = top.parent
+            if fi.qualname in ("Semaphore.acquire", "Semaphore.release", "Semaphore.__init__") or (top.qualname in may_write and top.qualname not in ("Semaphore.acquire", "Semaphore.release", "Semaphore.__init__")):
                 continue
             for st in q.stores_to(fi.node, VAL):
                 ck.ob("C33.grant-guard", fi, st, False, "_value is written only by Semaphore.__init__/acquire/release")
